@@ -263,7 +263,11 @@ func (a *Adapter) traceWorker(ctx sdk.Context, rf string) ([]uint64, uint64) {
 	must(err)
 	mustf(!res.Failed(), "worker trace failed: %s", res.VmError)
 	var pts []uint64
-	for _, l := range tr.StructLogs() {
+	logs := tr.StructLogs()
+	for len(logs) > 0 && logs[len(logs)-1].GasCost == 0 { // a limit that only stops short of a free opcode (STOP) is enough
+		logs = logs[:len(logs)-1]
+	}
+	for _, l := range logs {
 		if l.Depth == 1 {
 			pts = append(pts, ample-l.Gas)
 		}
